@@ -1121,4 +1121,66 @@ example : ¬ Allowed (effOrigins strictLayer.cfg.core) oEvil := by
     have := (glob_iff _ _).mpr hg
     revert this; decide
 
+
+/-! ## round 6: the whole request head — method, `Origin`, `Access-Control-Request-Headers`, nothing else -/
+
+/-- a header line under another name does not change what is read under `name` -/
+theorem hdrValues_cons_ne (n v name : Str) (hs : List (Str × Str)) (h : n ≠ name) :
+    hdrValues ((n, v) :: hs) name = hdrValues hs name := by
+  simp [hdrValues, List.filter, h]
+
+/-- **C11_req_preflight_iff** — a request is treated as a preflight exactly when its method is
+    `OPTIONS`: the presence or absence of `Access-Control-Request-Method` (or of any other header)
+    plays no part. -/
+theorem C11_req_preflight_iff (method : Str) (headers : List (Str × Str)) :
+    (reqOf method headers).core.preflight = true ↔ method = "OPTIONS".toList := by
+  unfold reqOf
+  exact decide_eq_true_iff
+
+/-- **C11_req_decoys_ignored** — a header that is neither `Origin` nor
+    `Access-Control-Request-Headers` changes nothing: same answer from any stack of instances
+    (given the same Skipper answers and context values). -/
+theorem C11_req_decoys_ignored (method n v : Str) (headers : List (Str × Str))
+    (h1 : n ≠ "Origin".toList) (h2 : n ≠ "Access-Control-Request-Headers".toList) (ls : List Layer) :
+    serveStack (reqOf method ((n, v) :: headers)) ls = serveStack (reqOf method headers) ls := by
+  have : reqOf method ((n, v) :: headers) = reqOf method headers := by
+    unfold reqOf
+    rw [hdrValues_cons_ne _ _ _ _ h1, hdrValues_cons_ne _ _ _ _ h2]
+  rw [this]
+
+/-- **C11_req_options_never_runs** — whatever else an `OPTIONS` request carries, no unskipped
+    instance lets it through to the handler. -/
+theorem C11_req_options_never_runs (headers : List (Str × Str)) (ls : List Layer) (l : Layer)
+    (hl : l ∈ ls) (hs : l.skip = false) :
+    (serveStack (reqOf "OPTIONS".toList headers) ls).core.ran = false := by
+  cases hr : (serveStack (reqOf "OPTIONS".toList headers) ls).core.ran with
+  | false => rfl
+  | true =>
+    exfalso
+    have h1 := (C11_stack_ran_iff _ ls).mp hr l hl
+    have hp : (layerReq (reqOf "OPTIONS".toList headers) l).core.preflight = true := by
+      show decide ("OPTIONS".toList = "OPTIONS".toList) = true
+      exact decide_eq_true rfl
+    have := (C11_full_preflight l.cfg (layerReq (reqOf "OPTIONS".toList headers) l) hs hp).1
+    unfold Layer.run at h1
+    rw [this] at h1; cases h1
+
+/-- **C11_req_origin_verbatim** — the Origin is compared as it was sent: the first `Origin` value,
+    byte for byte, is what `Allowed` is decided on and what is echoed; another spelling of "the same"
+    origin (default port, trailing dot or slash, other letter case, padding blanks) is another origin. -/
+theorem C11_req_origin_verbatim (method : Str) (headers : List (Str × Str)) :
+    (reqOf method headers).origin = (hdrValues headers "Origin".toList).headD [] := rfl
+
+-- the spellings are different origins for the model, as for the code
+example :
+    let cfg : Cfg := ⟨["https://app.example.com".toList, "https://*.example.org".toList], true, false⟩
+    allowOrigin cfg "https://app.example.com:443".toList = [] ∧ allowOrigin cfg "https://app.example.com.".toList = [] ∧
+    allowOrigin cfg "https://a.example.org:443".toList = [] ∧
+    allowOrigin cfg "https://app.example.com".toList = "https://app.example.com".toList := by decide
+-- OPTIONS with and without Access-Control-Request-Method, with Sec-Fetch-Site: same-origin: always a bare 204 / grant
+example : (serveStack (reqOf "OPTIONS".toList [("Origin".toList, oEvil), ("Sec-Fetch-Site".toList, "same-origin".toList)])
+      [strictLayer]).core = ⟨204, false, none, false, [varyOrigin]⟩ ∧
+    (serveStack (reqOf "OPTIONS".toList [("Access-Control-Request-Method".toList, "GET".toList), ("Origin".toList, oGood)])
+      [strictLayer]).core = ⟨204, false, some oGood, true, varyOrigin :: varyPreflight⟩ := by decide
+
 end C11
